@@ -3,7 +3,7 @@
    All theorems are about decode with offset >= 0 on byte strings (bytes_ok). *)
 From Coq Require Import ZArith List Bool.
 From NV Require Import Base.Result Base.Bytes Model.Pdu
-  Base.PyPrims Model.PduSpec Gen.PduLen Gen.PduK Gen.CollectK Bridge.Pdu Proofs.PduBase Proofs.PduWin Proofs.PduLen Proofs.PduRt Proofs.PduTotal Proofs.PduAgf Proofs.PduSound.
+  Base.PyPrims Model.PduSpec Gen.PduLen Gen.PduK Gen.CollectK Gen.PduF Bridge.Pdu Bridge.PduF Proofs.PduBase Proofs.PduWin Proofs.PduLen Proofs.PduRt Proofs.PduTotal Proofs.PduAgf Proofs.PduSound.
 Import ListNotations.
 Open Scope Z_scope.
 
@@ -361,6 +361,183 @@ Theorem C11_bridge_frmr_nibbles b :
  gen_pdu_frmr_hi b = Z.shiftr b 4 /\ gen_pdu_frmr_lo b = Z.land b 15.
 Proof. exact (bridge_frmr_nibbles b). Qed.
 Print Assumptions C11_bridge_frmr_nibbles.
+
+
+(* --- tie, round 3: WHOLE functions.  Every decode classmethod, every encode method, decode_header / encode_header,
+       Parameter.decode / Parameter.encode and the module-level decode() of pdu.py, translated statement by statement on
+       this run (Gen/PduF.v), are the functions of Model/Pdu.v: the theorems above are about the translated source text.
+       Hypotheses: offset >= 0, byte strings; offset + size >= 0 where a payload slice is taken; for the AGF classmethod
+       called on its own, offset + size <= len data (decode() checks that before it dispatches) --- *)
+Theorem C11_bridge_decode_header_f data off size :
+  gen_decode_header data off size = decode_header data off size.
+Proof. exact (Bridge.PduF.bridge_decode_header_f data off size). Qed.
+Print Assumptions C11_bridge_decode_header_f.
+Theorem C11_bridge_decode_nheader_f data off size :
+  gen_decode_nheader data off size = decode_nheader data off size.
+Proof. exact (Bridge.PduF.bridge_decode_nheader_f data off size). Qed.
+Print Assumptions C11_bridge_decode_nheader_f.
+Theorem C11_bridge_encode_header_f pt d s :
+  gen_encode_header pt d s = encode_header pt d s.
+Proof. exact (Bridge.PduF.bridge_encode_header_f pt d s). Qed.
+Print Assumptions C11_bridge_encode_header_f.
+Theorem C11_bridge_encode_nheader_f pt d s ns nr :
+  gen_encode_nheader pt d s ns nr = encode_nheader pt d s ns nr.
+Proof. exact (Bridge.PduF.bridge_encode_nheader_f pt d s ns nr). Qed.
+Print Assumptions C11_bridge_encode_nheader_f.
+Theorem C11_bridge_param_encode_f t :
+  gen_param_encode t = param_encode t.
+Proof. exact (Bridge.PduF.bridge_param_encode_f t). Qed.
+Print Assumptions C11_bridge_param_encode_f.
+Theorem C11_bridge_param_decode_f data off size :
+  bytes_ok data ->
+  gen_param_decode data off size = do (L, t) <- param_decode data off size; Ok (rd0 data off, L, t).
+Proof. exact (Bridge.PduF.bridge_param_decode_f data off size). Qed.
+Print Assumptions C11_bridge_param_decode_f.
+Theorem C11_bridge_decode_Symmetry data off size :
+  gen_decode_Symmetry data off size = dec_symm data off size.
+Proof. exact (Bridge.PduF.bridge_decode_Symmetry data off size). Qed.
+Print Assumptions C11_bridge_decode_Symmetry.
+Theorem C11_bridge_decode_ParameterExchange data off size :
+  bytes_ok data ->
+  gen_decode_ParameterExchange data off size = dec_pax data off size.
+Proof. exact (Bridge.PduF.bridge_decode_ParameterExchange data off size). Qed.
+Print Assumptions C11_bridge_decode_ParameterExchange.
+Theorem C11_bridge_decode_Connect data off size :
+  bytes_ok data -> gen_decode_Connect data off size = dec_connect data off size.
+Proof. exact (Bridge.PduF.bridge_decode_Connect data off size). Qed.
+Print Assumptions C11_bridge_decode_Connect.
+Theorem C11_bridge_decode_ConnectionComplete data off size :
+  bytes_ok data ->
+  gen_decode_ConnectionComplete data off size = dec_cc data off size.
+Proof. exact (Bridge.PduF.bridge_decode_ConnectionComplete data off size). Qed.
+Print Assumptions C11_bridge_decode_ConnectionComplete.
+Theorem C11_bridge_decode_ServiceNameLookup data off size :
+  bytes_ok data ->
+  gen_decode_ServiceNameLookup data off size = dec_snl data off size.
+Proof. exact (Bridge.PduF.bridge_decode_ServiceNameLookup data off size). Qed.
+Print Assumptions C11_bridge_decode_ServiceNameLookup.
+Theorem C11_bridge_decode_DataProtectionSetup data off size :
+  bytes_ok data ->
+  gen_decode_DataProtectionSetup data off size = dec_dps data off size.
+Proof. exact (Bridge.PduF.bridge_decode_DataProtectionSetup data off size). Qed.
+Print Assumptions C11_bridge_decode_DataProtectionSetup.
+Theorem C11_bridge_decode_UnnumberedInformation data off size :
+  0 <= off -> 0 <= off + size ->
+  gen_decode_UnnumberedInformation data off size = dec_ui data off size.
+Proof. exact (Bridge.PduF.bridge_decode_UnnumberedInformation data off size). Qed.
+Print Assumptions C11_bridge_decode_UnnumberedInformation.
+Theorem C11_bridge_decode_Disconnect data off size :
+  gen_decode_Disconnect data off size = dec_disc data off size.
+Proof. exact (Bridge.PduF.bridge_decode_Disconnect data off size). Qed.
+Print Assumptions C11_bridge_decode_Disconnect.
+Theorem C11_bridge_decode_DisconnectedMode data off size :
+  gen_decode_DisconnectedMode data off size = dec_dm data off size.
+Proof. exact (Bridge.PduF.bridge_decode_DisconnectedMode data off size). Qed.
+Print Assumptions C11_bridge_decode_DisconnectedMode.
+Theorem C11_bridge_decode_FrameReject data off size :
+  gen_decode_FrameReject data off size = dec_frmr data off size.
+Proof. exact (Bridge.PduF.bridge_decode_FrameReject data off size). Qed.
+Print Assumptions C11_bridge_decode_FrameReject.
+Theorem C11_bridge_decode_Information data off size :
+  0 <= off -> 0 <= off + size ->
+  gen_decode_Information data off size = dec_info data off size.
+Proof. exact (Bridge.PduF.bridge_decode_Information data off size). Qed.
+Print Assumptions C11_bridge_decode_Information.
+Theorem C11_bridge_decode_ReceiveReady data off size :
+  gen_decode_ReceiveReady data off size = dec_rr data off size.
+Proof. exact (Bridge.PduF.bridge_decode_ReceiveReady data off size). Qed.
+Print Assumptions C11_bridge_decode_ReceiveReady.
+Theorem C11_bridge_decode_ReceiveNotReady data off size :
+  gen_decode_ReceiveNotReady data off size = dec_rnr data off size.
+Proof. exact (Bridge.PduF.bridge_decode_ReceiveNotReady data off size). Qed.
+Print Assumptions C11_bridge_decode_ReceiveNotReady.
+Theorem C11_bridge_decode_UnknownProtocolDataUnit data off size :
+  0 <= off -> 0 <= off + size ->
+  gen_decode_UnknownProtocolDataUnit data off size = dec_unknown data off size.
+Proof. exact (Bridge.PduF.bridge_decode_UnknownProtocolDataUnit data off size). Qed.
+Print Assumptions C11_bridge_decode_UnknownProtocolDataUnit.
+Theorem C11_bridge_decode_AggregatedFrame_with dec data off size :
+  0 <= off -> bytes_ok data -> off + size <= len data ->
+  member_dec_ok dec data -> gen_decode_AggregatedFrame_with dec data off size = dec_agf data off size.
+Proof. exact (Bridge.PduF.bridge_decode_AggregatedFrame_with dec data off size). Qed.
+Print Assumptions C11_bridge_decode_AggregatedFrame_with.
+Theorem C11_bridge_decode_fuel d data off size :
+  0 <= off -> bytes_ok data ->
+  gen_decode_fuel (S (S d)) data off size = decode data off size.
+Proof. exact (Bridge.PduF.bridge_decode_fuel d data off size). Qed.
+Print Assumptions C11_bridge_decode_fuel.
+Theorem C11_bridge_decode data off size :
+  0 <= off -> bytes_ok data -> gen_decode data off size = decode data off size.
+Proof. exact (Bridge.PduF.bridge_decode data off size). Qed.
+Print Assumptions C11_bridge_decode.
+Theorem C11_bridge_decode_AggregatedFrame data off size :
+  0 <= off -> bytes_ok data -> off + size <= len data ->
+  gen_decode_AggregatedFrame data off size = dec_agf data off size.
+Proof. exact (Bridge.PduF.bridge_decode_AggregatedFrame data off size). Qed.
+Print Assumptions C11_bridge_decode_AggregatedFrame.
+Theorem C11_bridge_encode : forall p, Gen.PduF.gen_encode p = encode p.
+Proof. exact Bridge.PduF.bridge_encode. Qed.
+Print Assumptions C11_bridge_encode.
+Theorem C11_bridge_encode_Symmetry d s :
+  gen_encode (Symm d s) = encode (Symm d s).
+Proof. exact (Bridge.PduF.bridge_encode_Symmetry d s). Qed.
+Print Assumptions C11_bridge_encode_Symmetry.
+Theorem C11_bridge_encode_ParameterExchange d s v m w l o :
+  gen_encode (Pax d s v m w l o) = encode (Pax d s v m w l o).
+Proof. exact (Bridge.PduF.bridge_encode_ParameterExchange d s v m w l o). Qed.
+Print Assumptions C11_bridge_encode_ParameterExchange.
+Theorem C11_bridge_encode_AggregatedFrame d s ps :
+  gen_encode (Agf d s ps) = encode (Agf d s ps).
+Proof. exact (Bridge.PduF.bridge_encode_AggregatedFrame d s ps). Qed.
+Print Assumptions C11_bridge_encode_AggregatedFrame.
+Theorem C11_bridge_encode_UnnumberedInformation d s b :
+  gen_encode (UI d s b) = encode (UI d s b).
+Proof. exact (Bridge.PduF.bridge_encode_UnnumberedInformation d s b). Qed.
+Print Assumptions C11_bridge_encode_UnnumberedInformation.
+Theorem C11_bridge_encode_Connect d s miu rw sn :
+  gen_encode (Connect d s miu rw sn) = encode (Connect d s miu rw sn).
+Proof. exact (Bridge.PduF.bridge_encode_Connect d s miu rw sn). Qed.
+Print Assumptions C11_bridge_encode_Connect.
+Theorem C11_bridge_encode_Disconnect d s :
+  gen_encode (Disc d s) = encode (Disc d s).
+Proof. exact (Bridge.PduF.bridge_encode_Disconnect d s). Qed.
+Print Assumptions C11_bridge_encode_Disconnect.
+Theorem C11_bridge_encode_ConnectionComplete d s miu rw :
+  gen_encode (CC d s miu rw) = encode (CC d s miu rw).
+Proof. exact (Bridge.PduF.bridge_encode_ConnectionComplete d s miu rw). Qed.
+Print Assumptions C11_bridge_encode_ConnectionComplete.
+Theorem C11_bridge_encode_DisconnectedMode d s r :
+  gen_encode (DM d s r) = encode (DM d s r).
+Proof. exact (Bridge.PduF.bridge_encode_DisconnectedMode d s r). Qed.
+Print Assumptions C11_bridge_encode_DisconnectedMode.
+Theorem C11_bridge_encode_FrameReject d s a b c e f g h i :
+  gen_encode (Frmr d s a b c e f g h i) = encode (Frmr d s a b c e f g h i).
+Proof. exact (Bridge.PduF.bridge_encode_FrameReject d s a b c e f g h i). Qed.
+Print Assumptions C11_bridge_encode_FrameReject.
+Theorem C11_bridge_encode_ServiceNameLookup d s rq rs :
+  gen_encode (Snl d s rq rs) = encode (Snl d s rq rs).
+Proof. exact (Bridge.PduF.bridge_encode_ServiceNameLookup d s rq rs). Qed.
+Print Assumptions C11_bridge_encode_ServiceNameLookup.
+Theorem C11_bridge_encode_DataProtectionSetup d s e r :
+  gen_encode (Dps d s e r) = encode (Dps d s e r).
+Proof. exact (Bridge.PduF.bridge_encode_DataProtectionSetup d s e r). Qed.
+Print Assumptions C11_bridge_encode_DataProtectionSetup.
+Theorem C11_bridge_encode_Information d s ns nr b :
+  gen_encode (Info d s ns nr b) = encode (Info d s ns nr b).
+Proof. exact (Bridge.PduF.bridge_encode_Information d s ns nr b). Qed.
+Print Assumptions C11_bridge_encode_Information.
+Theorem C11_bridge_encode_ReceiveReady d s nr :
+  gen_encode (RR d s nr) = encode (RR d s nr).
+Proof. exact (Bridge.PduF.bridge_encode_ReceiveReady d s nr). Qed.
+Print Assumptions C11_bridge_encode_ReceiveReady.
+Theorem C11_bridge_encode_ReceiveNotReady d s nr :
+  gen_encode (RNR d s nr) = encode (RNR d s nr).
+Proof. exact (Bridge.PduF.bridge_encode_ReceiveNotReady d s nr). Qed.
+Print Assumptions C11_bridge_encode_ReceiveNotReady.
+Theorem C11_bridge_encode_UnknownProtocolDataUnit pt d s b :
+  gen_encode (Unknown pt d s b) = encode (Unknown pt d s b).
+Proof. exact (Bridge.PduF.bridge_encode_UnknownProtocolDataUnit pt d s b). Qed.
+Print Assumptions C11_bridge_encode_UnknownProtocolDataUnit.
 
 (* non-vacuity: concrete PDUs / byte strings meeting the hypotheses, including RW = 0 and the former over-reads *)
 Example C11_nonvacuous :
